@@ -189,8 +189,8 @@ COMMON = {
     "transitions": transitions,
     "nontrivial": nontrivial,
     "all_transitions": ["inner_call", "dropped-running", "result-ok", "result-err", "result-err-timeout", "result-panic-panic"],
-    "model_modules": ["TR.Model.Bulkhead", "TR.Lemmas.Bulkhead"],
-    "lean_files": ["TR.Model.Bulkhead", "TR.Lemmas.Bulkhead"],
+    "model_modules": ["TR.Model.Bulkhead", "TR.Lemmas.Bulkhead", "TR.Lemmas.Bulkhead2"],
+    "lean_files": ["TR.Model.Bulkhead", "TR.Lemmas.Bulkhead", "TR.Lemmas.Bulkhead2"],
     "sizes": (500, 30000),
     "rule": "seeded random op sequences (arrive/poll/drop/adv/settle) over 1..10 callers, max 1..4, max_wait none/0/1..50ms, "
             "advances biased to deadline-1/deadline/deadline+1, followed by a quiescence + probe burst; distinct = distinct "
@@ -214,7 +214,7 @@ SPECS = {
                            "BulkheadLayer by line-for-line agreement of event logs on generated schedules.",
                 level_note=LEVEL_NOTE),
     "C07": dict(COMMON, module="TR.Props.C07", monitors=[("c07-capacity-and-rejection", mon_c07)],
-                level_text="Theorems TR.Props.C07.{quiescent_full,no_waiter_while_free,admit_at_once,reject_only_by_timeout}: after any history all "
+                level_text="Theorems TR.Props.C07.{quiescent_full,no_waiter_while_free,admit_at_once,reject_only_by_timeout,one_phase,rejected_never_runs,cancelled_while_waiting_never_runs}: after any history all "
                            "permits return once nothing is in flight; a first poll with spare capacity reaches the inner service in that step; "
                            "err:timeout is emitted only for max_wait=0 with no free permit or for a queued, unassigned caller at/after its deadline. "
                            "Exactness of the rejection instant (timer wake-up at the deadline) is observed by the harness's waker monitor, not proved.",
